@@ -259,3 +259,28 @@ func runHistory(seed int64) historyRun {
 	h.desc = fmt.Sprintf("backend %s/%s; history %s; probe %s", hc.target, hc.codec, strings.Join(order, ", "), formNames[probe.form])
 	return h
 }
+
+func init() {
+	// C15: the pool itself. Buffers with data are put back, Gets must come back empty; a buffer above
+	// the recycling bound must never come back.
+	suites["poolops"] = func(c *ctx) {
+		r := c.r
+		for i := 0; i < c.n; i++ {
+			n := 1 + r.intn(12)
+			ops := make([]vanguard.VerifPoolOp, n)
+			in := L{}
+			for k := range ops {
+				if r.chance(1, 2) {
+					capacity := pick(r, []int{1, 512, 4096, 1 << 20, 8 << 20, 8<<20 + 1, 9 << 20})
+					ops[k] = vanguard.VerifPoolOp{PutCap: capacity, Fill: pick(r, []int{0, 1, 100, capacity})}
+				}
+				in = append(in, L{int64(ops[k].PutCap), int64(ops[k].Fill)})
+			}
+			out := L{}
+			for _, g := range vanguard.VerifPoolOps(ops) {
+				out = append(out, L{int64(g.Len), int64(g.Cap), int64(g.FromPut)})
+			}
+			c.emit(Case{Suite: "pool.ops", In: in, Out: out, Tags: []string{fmt.Sprintf("poolops.len:%d", n)}})
+		}
+	}
+}
